@@ -294,7 +294,10 @@ def byteorder(ctx):
     c = [c for c in calls_in(lt) if call_name(c) == "_unpickle"]
     ctx.check(bool(c) and is_const(kwarg(c[0], "ensure_native_byte_order"), False), c[0] if c else lt, "temporary memmaps for workers are never byte-swapped")
     e = ctx.repo.func(NPU, "_ensure_native_byte_order")
-    ctx.check("array.byteswap().view(array.dtype.newbyteorder('='))" in unparse(e.body[-2], 400) or any("byteswap" in unparse(s, 400) for s in e.body), e, "swap = byteswap + view with native dtype (values preserved)")
+    sw = [c_ for c_ in calls_in(e) if call_attr(c_) == "byteswap"]
+    ctx.check(bool(sw) and all(not c_.args and not c_.keywords for c_ in sw), sw[0] if sw else e, "the swap makes a copy (byteswap() without inplace): a memory-mapped or shared buffer is never modified",
+              "byte order is normalised with byteswap(%s): the legacy reader hands memory-mapped arrays to this function, so the file itself would be rewritten" % (unparse(sw[0], 60) if sw else ""))
+    ctx.check(any("array.byteswap().view(array.dtype.newbyteorder('='))" in unparse(s_, 400) for s_ in ast.walk(e) if isinstance(s_, ast.Assign)), e, "swap = byteswap + view with native dtype (values preserved)")
     pr = ctx.repo.func(NPU, "_is_numpy_array_byte_order_mismatch")
     rets_ = nodes_of_type(pr, ast.Return)
     ctx.need(len(rets_) == 1 and isinstance(rets_[0].value, ast.BoolOp) and isinstance(rets_[0].value.op, ast.Or) and len(rets_[0].value.values) == 2, "byte-order predicate shape not recognised")
@@ -422,7 +425,35 @@ def threshold(ctx):
     ctx.check(bool(fl) and unparse(fl[0].value) == "os.path.join(self._temp_folder, basename)", fl[0] if fl else f, "the file lives in the call's temporary folder")
 
 
+def weakmap(ctx):
+    """_WeakArrayKeyMap (array -> temporary file name) is keyed by id(): an entry is valid only for the very
+    object that created it (ids are reused after garbage collection)."""
+    g_ = ctx.repo.func(MR, "_WeakArrayKeyMap.get")
+    gg = cfg_of(g_)
+    rets = nodes_of_type(g_, ast.Return)
+    chk = [n for n in nodes_of_type(g_, ast.If) if "is not obj" in unparse(n.test) or "is obj" in unparse(n.test)]
+    ok = bool(chk) and any(isinstance(x, ast.Raise) and call_name(x.exc) == "KeyError" for x in chk[0].body) and all(gg.every_path_to(gg.nodes_of(r), gg.nodes_of(chk[0])) for r in rets)
+    ctx.check(ok, chk[0] if chk else g_, "get() returns a value only after checking that the weak reference still denotes the SAME object (else KeyError)",
+              "get() trusts id(obj): after the original array was collected, a new array with a recycled id is served the old array's memmap file (workers see another array's data)")
+    s_ = ctx.repo.func(MR, "_WeakArrayKeyMap.set")
+    refs = [c for c in calls_in(s_) if call_name(c) == "weakref.ref"]
+    ok = bool(refs) and all(len(c.args) == 2 for c in refs)
+    ctx.check(ok, refs[0] if refs else s_, "set() registers a destructor callback that drops the entry when the array dies",
+              "set() keeps entries of dead arrays (weakref without callback): stale id -> file name entries accumulate and can be hit by recycled ids")
+    cb = [n for n in nodes_of_type(s_, ast.FunctionDef)]
+    ctx.check(bool(cb) and any(isinstance(x, ast.Delete) and "self._data[key]" in unparse(x) for x in ast.walk(cb[0])), cb[0] if cb else s_, "the callback deletes exactly that key")
+    fw = ctx.repo.func(MR, "ArrayMemmapForwardReducer.__call__")
+    gt = [c for c in calls_in(fw) if call_name(c) == "self._memmaped_arrays.get"]
+    st = [c for c in calls_in(fw) if call_name(c) == "self._memmaped_arrays.set"]
+    ctx.check(bool(gt) and bool(st) and dotted(gt[0].args[0]) == "a" and [dotted(x) for x in st[0].args] == ["a", "basename"], gt[0] if gt else fw, "the reducer looks the array itself up and records the array itself")
+    hs = [h for a_ in ancestors(gt[0]) if isinstance(a_, ast.Try) for h in a_.handlers] if gt else []
+    ctx.check(any(unparse(h.type) == "KeyError" for h in hs), gt[0] if gt else fw, "an unknown (or recycled-id) array gets a fresh unique file name")
+    bn = [a for a in nodes_of_type(fw, ast.Assign) if "basename" in stores_to(a) and isinstance(a.value, ast.Call) and call_attr(a.value) == "format"]
+    ctx.check(bool(bn) and "uuid4().hex" in unparse(bn[0].value) and "os.getpid()" in unparse(bn[0].value), bn[0] if bn else fw, "fresh names contain the pid and a uuid (no two arrays share a file)")
+
+
 def run(ctx):
+    ctx.run("C19.WEAKMAP", "R-WHO", weakmap)
     ctx.run("C19.INTERCEPT", "R-TABLE/R-ORDER", intercept)
     ctx.run("C19.META", "R-FLOW", meta)
     ctx.run("C19.IO-DUAL", "R-DUAL", io_dual)
